@@ -8,22 +8,23 @@ open SqVerif.Adjacency
      guardUnknown  line 406  for remote_node_name, remote_host in self.factory.qnodeos_net.hostDict
      other         line 413  self._logger.debug(f'Creating EPR with {remote_node_name} on socket {e
      guardSelf     line 416  if self.name == remote_node_name:
-     other         line 422  second_qubit_id = -(1 + qubit_id)
-     cmdNew        line 423  for q_id in [qubit_id, second_qubit_id]:
-     cmdNew        line 423  for q_id in [qubit_id, second_qubit_id]:
-     unrecog       line 429  h_gate = self._get_simulaqron_gate(instr=instructions.vanilla.GateHIns
-     unrecog       line 430  yield self.apply_single_qubit_gate(gate=h_gate, qubit_id=qubit_id)
-     unrecog       line 434  cnot_gate = self._get_simulaqron_gate(instr=instructions.vanilla.CnotI
-     unrecog       line 435  yield self.apply_two_qubit_gate(gate=cnot_gate, qubit_id1=qubit_id, qu
-     unrecog       line 443  ent_id = self.new_ent_id(epr_socket_id=epr_socket_id, remote_node_id=r
-     unrecog       line 448  if create_request.type == RequestType.K:
-     unrecog       line 510  self._handle_epr_response(response=ent_info)
-     other         line 511  self._logger.debug('finished cmd_epr')
+     guardAdjacent line 420  if not self.factory.is_adjacent(remote_node_name):
+     other         line 426  second_qubit_id = -(1 + qubit_id)
+     cmdNew        line 427  for q_id in [qubit_id, second_qubit_id]:
+     cmdNew        line 427  for q_id in [qubit_id, second_qubit_id]:
+     unrecog       line 433  h_gate = self._get_simulaqron_gate(instr=instructions.vanilla.GateHIns
+     unrecog       line 434  yield self.apply_single_qubit_gate(gate=h_gate, qubit_id=qubit_id)
+     unrecog       line 438  cnot_gate = self._get_simulaqron_gate(instr=instructions.vanilla.CnotI
+     unrecog       line 439  yield self.apply_two_qubit_gate(gate=cnot_gate, qubit_id1=qubit_id, qu
+     unrecog       line 447  ent_id = self.new_ent_id(epr_socket_id=epr_socket_id, remote_node_id=r
+     unrecog       line 452  if create_request.type == RequestType.K:
+     unrecog       line 514  self._handle_epr_response(response=ent_info)
+     other         line 515  self._logger.debug('finished cmd_epr')
 -/
 def cmdEprStmts : List Stmt := [
-  .guardUnknown, .other, .guardSelf, .other, .cmdNew, .cmdNew,
-  .unrecog, .unrecog, .unrecog, .unrecog, .unrecog, .unrecog,
-  .unrecog, .other
+  .guardUnknown, .other, .guardSelf, .guardAdjacent, .other, .cmdNew,
+  .cmdNew, .unrecog, .unrecog, .unrecog, .unrecog, .unrecog,
+  .unrecog, .unrecog, .other
 ]
 
 /- _do_create_epr, every nested simple statement
